@@ -147,19 +147,21 @@ structure LoadObs where
   /-- the typed getters (`String`, `Int`, `Bool`, …, the `…Or` variants, generic `Get`/`GetOr`) agree
       with `Get`: a present value, falsy or not, is converted; the default only replaces nil -/
   typed : Bool
+  /-- the Load panicked (it must not: every fault is to come back as an error) -/
+  panicked : Bool
   deriving Repr
 
 /-- the oracle for one Load, given what was observed before it -/
 def loadOK (schema : Bool) (nv : Nat) (prevValues : Kvs) (prevBound : List (Bytes × Bytes))
     (inp : LoadInput) (o : LoadObs) : Bool :=
   if mustFail schema nv inp then
-    o.failed && kvsEq o.values prevValues && o.bound == prevBound && o.typed
+    o.failed && kvsEq o.values prevValues && o.bound == prevBound && o.typed && !o.panicked
   else
     !o.failed && valuesOK (okMaps inp) o.values &&
     (match inp.bind with
      | some (.ok fresh) => o.bound == fresh
      | _ => o.bound == prevBound) &&
-    (o.gets.all fun (k, r) => r == specGet (okMaps inp) k) && o.typed
+    (o.gets.all fun (k, r) => r == specGet (okMaps inp) k) && o.typed && !o.panicked
 
 /-- Two Loads racing on one `Config` (their sources are read concurrently, their locked regions
     run in some order): each fails exactly when a fault is injected into it, and the final values
